@@ -1124,6 +1124,15 @@ func (driverContextInsertion) isActionable(_ stateTableDriver, entry tables.AATS
 	return entry.Flags&(miCurrentInsertCount|miMarkedInsertCount) != 0 && (current != 0xFFFF || marked != 0xFFFF)
 }
 
+// insertedGlyphs returns the [count] glyphs of the insertion action starting at [start],
+// or nothing if they are not entirely in the action table (invalid font)
+func (dc *driverContextInsertion) insertedGlyphs(start uint16, count int) []GID {
+	if int(start)+count > len(dc.insertionAction) {
+		return nil
+	}
+	return dc.insertionAction[start : int(start)+count]
+}
+
 func (dc *driverContextInsertion) transition(driver stateTableDriver, entry tables.AATStateEntry) {
 	buffer := driver.buffer
 	flags := entry.Flags
@@ -1136,8 +1145,8 @@ func (dc *driverContextInsertion) transition(driver stateTableDriver, entry tabl
 		if buffer.maxOps <= 0 {
 			return
 		}
-		start := markedInsertIndex
-		glyphs := dc.insertionAction[start:]
+		glyphs := dc.insertedGlyphs(markedInsertIndex, count)
+		count = len(glyphs)
 
 		before := flags&miMarkedInsertBefore != 0
 
@@ -1148,7 +1157,7 @@ func (dc *driverContextInsertion) transition(driver stateTableDriver, entry tabl
 			buffer.copyGlyph()
 		}
 		/* TODO We ignore KashidaLike setting. */
-		buffer.replaceGlyphs(0, nil, glyphs[:count])
+		buffer.replaceGlyphs(0, nil, glyphs)
 
 		if buffer.idx < len(buffer.Info) && !before {
 			buffer.skipGlyph()
@@ -1170,8 +1179,8 @@ func (dc *driverContextInsertion) transition(driver stateTableDriver, entry tabl
 			return
 		}
 		buffer.maxOps -= count
-		start := currentInsertIndex
-		glyphs := dc.insertionAction[start:]
+		glyphs := dc.insertedGlyphs(currentInsertIndex, count)
+		count = len(glyphs)
 
 		before := flags&miCurrentInsertBefore != 0
 
@@ -1182,7 +1191,7 @@ func (dc *driverContextInsertion) transition(driver stateTableDriver, entry tabl
 		}
 
 		/* TODO We ignore KashidaLike setting. */
-		buffer.replaceGlyphs(0, nil, glyphs[:count])
+		buffer.replaceGlyphs(0, nil, glyphs)
 
 		if buffer.idx < len(buffer.Info) && !before {
 			buffer.skipGlyph()
